@@ -17,7 +17,7 @@ position after a *failure* left wherever the code leaves it.
 | `.alt` | alternative_impl.hpp (save, left, restore, `is_fatal`, right; error_add.hpp: fatal-or) |
 | `.rep` | repetition_impl.hpp + either/loop.hpp (element, skipper, `pos` updated only after both; restore; `is_fatal`) |
 | `.opt` `.not` `.fatal` `.lexeme` | optional_impl.hpp, not_impl.hpp, fatal_impl.hpp, lexeme_impl.hpp |
-| `.conv` `.convIf` `.ignore` `.named` | convert_impl.hpp / construct.hpp, convert_if_impl.hpp, ignore_impl.hpp, named_impl.hpp (a *new, non-fatal* error) |
+| `.conv` `.convIf` `.ignore` `.named` | convert_impl.hpp / construct.hpp, convert_if_impl.hpp, ignore_impl.hpp, named_impl.hpp (a new error that keeps the fatal flag, af6c285) |
 | `.ref` | base_decl.hpp / detail/concrete_impl.hpp / grammar_impl.hpp / recursive_impl.hpp (indirection through a rule) |
 | `desugar`/`post` for `.plus .sep .list .uint .int` | repetition_plus_impl.hpp (`p >> *p`), separator_impl.hpp (`-(p >> *(sep >> p))`), list_impl.hpp (`start >> (end | (separator >> end))`), uint_impl.hpp (`lexeme(+digits)`), int_impl.hpp (`lexeme(-lit('-') >> +digits)`) — the code builds exactly these composite parsers and post-processes their value |
 | `M.parseString` | phrase_parse.hpp (skipper first), phrase_parse_string.hpp, parse_string.hpp, grammar_parse_string.hpp, detail/consume_remaining.hpp |
@@ -229,7 +229,7 @@ def run (g : G) (s : List Nat) : Nat → P → Sk → Nat → Option MRes
     match run g s f a sk pos with
     | none => none
     | some (.ok v p) => some (.ok v p)
-    | some (.err _ p) => some (.err false p)  -- error{"Expected " + name}: the fatal flag is not kept
+    | some (.err ft p) => some (.err ft p)  -- error{"Expected " + name}, the fatal flag is kept (repaired in af6c285)
   | f+1, .ref i, sk, pos => run g s f (g.rules i) sk pos
   | f+1, .plus a, sk, pos => sugar (.plus a) (run g s f (desugar (.plus a)) sk pos)
   | f+1, .sep a b, sk, pos => sugar (.sep a b) (run g s f (desugar (.sep a b)) sk pos)
